@@ -320,6 +320,85 @@ def run(out):
                     os.environ.pop('MIDO_BACKEND', None)
                 else:
                     os.environ['MIDO_BACKEND'] = saved_env
+            # the MIDO_DEFAULT_* variables are read when a port is opened, not when the Backend was made: change them between calls on ONE backend;
+            # and nothing a call was given sticks to the backend for the next call
+            from mido.backends.backend import Backend
+            saved_defaults = {k: os.environ.get(k) for k in ('MIDO_DEFAULT_INPUT', 'MIDO_DEFAULT_OUTPUT', 'MIDO_DEFAULT_IOPORT')}
+            try:
+                for native in (1, 0):
+                    mod = ensure_module(6, native, 1)
+                    b = Backend(mod + '/tokB')
+                    script = [('env', 'MIDO_DEFAULT_INPUT', 'in-A'), ('open_input', None, {}), ('env', 'MIDO_DEFAULT_INPUT', 'in-B'), ('open_input', None, {}),
+                              ('open_input', 'x', {'api': 'tokJ'}), ('open_input', None, {}), ('env', 'MIDO_DEFAULT_INPUT', None), ('open_input', None, {}),
+                              ('env', 'MIDO_DEFAULT_OUTPUT', 'out-A'), ('open_output', None, {'autoreset': True}), ('open_output', None, {}),
+                              ('env', 'MIDO_DEFAULT_IOPORT', 'io-A'), ('open_ioport', None, {}), ('env', 'MIDO_DEFAULT_IOPORT', None), ('open_ioport', None, {}),
+                              ('open_ioport', 'y', {'api': 'tokK'}), ('open_ioport', None, {}), ('get_input_names', None, {'api': 'tokL'}), ('get_input_names', None, {})]
+                    for step in script:
+                        if step[0] == 'env':
+                            if step[2] is None:
+                                os.environ.pop(step[1], None)
+                            else:
+                                os.environ[step[1]] = step[2]
+                            continue
+                        nh += 1
+                        what, name, kw = step
+                        # the same call on a backend made this instant is the reference
+                        results = []
+                        for bb in (b, Backend(mod + '/tokB')):
+                            mark = len(builtins._verif_backend_log)
+                            fn = getattr(bb, what)
+                            r = fn(**kw) if (name is None) else fn(name, **kw)
+                            if hasattr(r, 'close'):
+                                r.close()
+                            results.append([(e[0], e[1], sorted(e[2].items())) for e in builtins._verif_backend_log[mark:] if e[0] != 'import'])
+                        if results[0] != results[1]:
+                            out.failures.append(('backend-remembers', 'one Backend used for a series of calls: %s(%r, **%r) with the environment %r reaches the module as %r, on a Backend made this instant as %r'
+                                                 % (what, name, kw, {k: os.environ.get(k) for k in saved_defaults}, results[0], results[1]),
+                                                 {'component': 'set_backend', 'call': what, 'native': native}))
+                            break
+            finally:
+                for k, v in saved_defaults.items():
+                    if v is None:
+                        os.environ.pop(k, None)
+                    else:
+                        os.environ[k] = v
+            # two threads need the module for the first time at once: both get the finished module
+            import threading
+            slow = 'verif_fake_backend_slow'
+            src = ("import builtins, time\nbuiltins._verif_slow_started.set()\nbuiltins._verif_slow_go.wait(5)\n"
+                   "from mido.ports import BaseInput, BaseOutput, BaseIOPort\nLOG = builtins._verif_backend_log\nLOG.append(('import', __name__))\n"
+                   "class Input(BaseInput):\n    pass\nclass Output(BaseOutput):\n    pass\nclass IOPort(BaseIOPort):\n    pass\n"
+                   "def get_devices(**kwargs):\n    return [dict(name='dev', is_input=True, is_output=True)]\n")
+            tmp = os.path.join(SCRATCH, slow + '.py.tmp')
+            with open(tmp, 'w') as f:
+                f.write(src)
+            os.replace(tmp, os.path.join(SCRATCH, slow + '.py'))
+            sys.modules.pop(slow, None)
+            builtins._verif_slow_started, builtins._verif_slow_go = threading.Event(), threading.Event()
+            nh += 1
+            res = {}
+
+            def first():
+                try:
+                    res['a'] = type(Backend(slow).open_ioport('p')).__module__
+                except Exception as e:  # noqa: BLE001
+                    res['a'] = repr(e)
+
+            def second():
+                try:
+                    bb = Backend(slow)
+                    res['b'] = (type(bb.open_ioport('p')).__module__, bb.get_input_names())
+                except Exception as e:  # noqa: BLE001
+                    res['b'] = repr(e)
+            ta = threading.Thread(target=first, daemon=True); ta.start()
+            builtins._verif_slow_started.wait(5)
+            tb = threading.Thread(target=second, daemon=True); tb.start()
+            time_mod = __import__('time'); time_mod.sleep(0.1)
+            builtins._verif_slow_go.set()
+            ta.join(5); tb.join(5)
+            if res.get('a') != slow or res.get('b') != (slow, ['dev']):
+                out.failures.append(('import-race', 'two threads needing the backend module for the first time at once: the first opened an IOPort of %r, the second got %r '
+                                     '(expected the module\'s own IOPort and its device list for both)' % (res.get('a'), res.get('b')), {'component': 'set_backend'}))
             out.evaluations += nh
             out.components['set_backend histories (implementation against the property statement)'] = {'cases': nh}
         finally:
